@@ -24,6 +24,7 @@ RULE = ('histories: Hypothesis draws (primary of RSA/DSA/ECDSA/EdDSA + ECDH or R
 RULE += ' Wrong passphrases that pass the two-octet checksum of usage 255 / the legacy form are searched for (reference, simple S2K) and must be refused.'
 RULE += ' Histories also hold protect() calls that are refused (IDEA, Twofish), after which the key must be what it was.'
 RULE += ' The foreign matrix also holds passphrases longer than the decoded S2K count (coded count 0) and RSA-2048/3072 keys whose usage-255 checksum wraps around 65536. Mixed forms: protected primary with unprotected subkey, primary in the clear with protected subkey, GnuPG stub primary with protected subkey, protect() while a subkey is still locked; the legacy protection form (usage octet = cipher id).'
+RULE += ' Mixed forms also ask key.decrypt() and key.sign() to work through a stub primary once the subkeys are open.'
 ASSUMPTIONS = ['the secret integers are known independently (key pool generated with cryptography)', 'object-graph walk is bounded (depth 10, 50000 objects); ciphertext blobs are exempt',
                'refpgp.keys/s2k/sym implement RFC 4880 5.5.3 independently']
 
